@@ -169,6 +169,23 @@ Definition performance_point (iv : interval Ops) (obs fcst : vec) : T * T :=
   let '(a, b, c, d) := compute_abcd Ops iv iv obs fcst in
   (n_sub Ops (lit 1) (contingency_finish Ops (Far_abcd Ops a b c d)), contingency_finish Ops (Hit_abcd Ops a b c d)).
 
+(* ---- economic value: at the cost-loss ratio a a case ACTS when its probability is at least a (expense a) and
+        otherwise does not act (expense 1 when the event occurs); the value relates the mean expense to the
+        expenses of a climatological and of a perfect forecast ------------------------------------------------------ *)
+Definition econ_acts (a : T) (p : vec) : list bool := map (fun q => n_leb Ops a q) p.
+Definition econ_waits (a : T) (p : vec) : list bool := map (fun q => n_ltb Ops q a) p.
+Definition count_true (l : list bool) : nat := length (filter (fun b => b) l).
+Definition econ_expense (a : T) (ev : list bool) (p : vec) : T :=
+  let nact := count_true (econ_acts a p) in
+  let nloss := count_true (map (fun z => andb (fst z) (snd z)) (combine (econ_waits a p) ev)) in
+  n_div Ops (n_add Ops (n_mul Ops a (n_ofnat Ops nact)) (n_mul Ops (lit 1) (n_ofnat Ops nloss))) (n_ofnat Ops (length ev)).
+Definition econ_value (a : T) (ev : list bool) (p : vec) : T :=
+  let clim := vmean Ops (map (of_bool Ops) ev) in
+  let clim_cost := if n_ltb Ops a (n_mul Ops clim (lit 1)) then a else n_mul Ops clim (lit 1) in
+  let perfect := n_mul Ops clim a in
+  if n_eqb Ops clim_cost perfect then lit 0
+  else n_div Ops (n_sub Ops clim_cost (econ_expense a ev p)) (n_sub Ops clim_cost perfect).
+
 (* ---- time series / meteogram: mean over locations (and times) ---------------------------------------------- *)
 Definition row_nanmeans (rows : list vec) : vec := map nanmean rows.
 End D.
